@@ -11,8 +11,10 @@
 //!    transport-drop order; `WatchHal` + a `#[global_allocator]` wrapper report every heap free that hits
 //!    memory currently shared with the device; a hook observer scans the available rings (through device
 //!    addresses) to know which chain every shared buffer is outstanding on;
-//!  * monitors 950 (balanced), 951 (quiesced) and 952 (refused allocation -> Err(DmaError)) evaluate the
-//!    property on the OBSERVED event sequence of each life cycle.
+//!  * monitors 950 (balanced), 951 (quiesced: mode 1 = queue_unset disables a queue and the transport drop
+//!    resets, mode 0 = without that reset, mode 2 = the PCI reading in which queue_unset does nothing and only
+//!    a reset quiesces) and 952 (refused allocation -> Err(DmaError)) evaluate the property on the OBSERVED
+//!    event sequence of each life cycle.
 use crate::hal::{self, Ev, LedgerHal};
 use crate::scen::common::*;
 use crate::scen::drivers9::{self, Built, Drv};
@@ -512,7 +514,18 @@ pub fn life(ctx: &mut Ctx, name: &str, plan: &Plan) {
         let mut i0 = vec![0u128]; i0.extend(flat.iter().copied());
         ctx.tr.line(951, &i0, &[1]);
     }
-    ctx.tr.line(2, &[], &[hal::live_regions() as u128]);
+    // the PCI reading (mode 2): PciTransport::queue_unset is a no-op, so no queue_unset call counts as
+    // quiescing; only a reset (status 0 / the transport drop) does. Safe only because `transport` is the
+    // first field of every driver struct and is therefore dropped before the queues and the buffers.
+    let mut i2 = vec![2u128]; i2.extend(flat.iter().copied());
+    ctx.tr.line(951, &i2, &[1]);
+    if all.iter().any(|e| matches!(e, Tev::Drop)) && all.iter().any(|e| matches!(e, Tev::Status(v) if v & 4 != 0)) {
+        // does the device still own chains when the driver value goes away?
+        let mut out: Vec<(u16, u16)> = vec![];
+        for e in &all { match e { Tev::Post(q, t) => out.push((*q, *t)), Tev::Unpost(q, t) => out.retain(|x| x != &(*q, *t)), _ => {} } }
+        ctx.tr.note(if out.is_empty() { "pci_reading_drop_live_nothing_posted" } else { "pci_reading_drop_live_with_chains_outstanding" });
+    }
+    ctx.tr.line(2,&[], &[hal::live_regions() as u128]);
     ledger_line(ctx);
     drop(rc);
 }
